@@ -145,9 +145,11 @@ impl Prop for SeqExact {
             (Tier::Thorough, _) if self.is_prefetch() => 40_000,
             (Tier::Quick, "fast") => 30_000,
             (Tier::Quick, "noprefetch") => 6_000,
+            (Tier::Quick, "asan") => 2_000,
             (Tier::Quick, _) => 15_000,
             (Tier::Thorough, "fast") => 240_000,
             (Tier::Thorough, "noprefetch") => 30_000,
+            (Tier::Thorough, "asan") => 10_000,
             (Tier::Thorough, _) => 60_000,
         }
     }
@@ -155,10 +157,13 @@ impl Prop for SeqExact {
         if self.is_prefetch() {
             if _tier == Tier::Thorough { vec!["fast", "checked", "noprefetch", "asan"] } else { vec!["fast", "checked", "noprefetch"] }
         } else {
-            // the crate feature `prefetch` must not matter for any answer: a smaller run without it
-            vec!["fast", "checked", "noprefetch"]
+            // the crate feature `prefetch` must not matter for any answer: a smaller run without it;
+            // `asan`: generated cases under AddressSanitizer (reads outside an allocation that
+            // happen to give the right answer)
+            vec!["fast", "checked", "noprefetch", "asan"]
         }
     }
+    fn fixed_in_asan(&self) -> bool { self.is_prefetch() }
     fn transcript_pairs(&self) -> Vec<(&'static str, &'static str)> {
         if self.is_prefetch() { vec![("fast", "noprefetch")] } else { vec![] }
     }
